@@ -111,17 +111,75 @@ Proof.
   - cbn [pend c_pend]. rewrite forallb_app, H, Hrs. reflexivity.
 Qed.
 
-Theorem store_seq_no_expunge w s st act silent flags :
-  clean_for s (snd (step w (OStore s false st act silent flags))).
+(* a resync never queues an EXPUNGE: a queue without one stays without one *)
+Lemma resync_no_expunge b s :
+  (forall c, In (s, c) (b_clients b) -> existsb is_expunge (c_pend c) = false) ->
+  forall c, In (s, c) (b_clients (fst (resync b))) -> existsb is_expunge (c_pend c) = false.
 Proof.
-  unfold step. apply in_mbox_clean. intros n b.
+  intros H0 c Hin. destruct (b_disk b) as [|d0 dl] eqn:E.
+  - rewrite resync_nodisk in Hin by exact E. cbn [fst] in Hin. apply H0; exact Hin.
+  - unfold resync in Hin. rewrite E in Hin. rewrite <- E in Hin. fold (fresh_of b) in Hin.
+    set (ms := b_msgs b ++ fresh_of b) in *.
+    match type of Hin with context [announce ?B ?R] => destruct (announce B R) as [b2 o1] eqn:Ea end.
+    match type of Hin with context [dispatch ?B ?D ?R] => destruct (dispatch B D R) as [b3 o2] eqn:Ed end.
+    cbn [fst] in Hin.
+    replace b3 with (fst (dispatch b2 None (notes_from ms 1 (fun m => b_next b <=? m_uid m) false))) in Hin
+      by (rewrite Ed; reflexivity).
+    apply dispatch_in in Hin. destruct Hin as [c2 [Hin2 Hc]].
+    match type of Ea with announce ?B ?R = _ =>
+      replace b2 with (fst (announce B R)) in Hin2 by (rewrite Ea; reflexivity) end.
+    apply announce_in in Hin2. destruct Hin2 as [c1 [Hin1 Hc1]]. cbn [b_clients] in Hin1.
+    specialize (H0 _ Hin1).
+    assert (Hp2 : existsb is_expunge (c_pend c2) = false).
+    { unfold announce1 in Hc1. destruct (c_pend c1) eqn:P1; [|destruct (c_idle c1)];
+        apply (f_equal snd) in Hc1; cbn [fst snd] in Hc1; subst c2.
+      - match goal with |- context [c_pend (deliver ?cc ?ll)] => destruct (deliver_pend cc ll) as [Hp _]; rewrite Hp end.
+        rewrite P1. reflexivity.
+      - match goal with |- context [c_pend (deliver ?cc ?ll)] => destruct (deliver_pend cc ll) as [Hp _]; rewrite Hp end.
+        rewrite P1. exact H0.
+      - cbn [pend c_pend]. rewrite existsb_app. rewrite P1. rewrite H0. reflexivity. }
+    destruct Hc as [Hc|Hc]; [subst c; exact Hp2|].
+    unfold dispatch1 in Hc. destruct (c_idle c2); apply (f_equal snd) in Hc; cbn [fst snd] in Hc; subst c.
+    + match goal with |- context [c_pend (deliver ?cc ?ll)] => destruct (deliver_pend cc ll) as [Hp _]; rewrite Hp end.
+      exact Hp2.
+    + cbn [pend c_pend]. rewrite existsb_app, Hp2. cbn [orb].
+      destruct (existsb is_expunge (notes_from ms 1 (fun m => b_next b <=? m_uid m) false)) eqn:X; [|reflexivity].
+      apply existsb_exists in X. destruct X as [r [Hr Hx]]. apply notes_from_neutral_in in Hr.
+      apply neutral_not_expunge in Hr. congruence.
+Qed.
+
+(* the flush that follows the admission of a non-UID FETCH/STORE/SEARCH sends no EXPUNGE *)
+Lemma postflush_clean b0 s :
+  (forall c, In (s, c) (b_clients b0) -> existsb is_expunge (c_pend c) = false) ->
+  clean_for s (snd (flush (fst (resync b0)) s)).
+Proof.
+  intros H0 r Hin. apply flush_out in Hin. destruct Hin as [c [G Hin]]. apply get_client_in in G.
+  pose proof (resync_no_expunge b0 s H0 c G) as Hx.
+  destruct (is_expunge r) eqn:Er; [|reflexivity].
+  assert (existsb is_expunge (c_pend c) = true) by (apply existsb_exists; exists r; auto). congruence.
+Qed.
+
+Lemma clean_queue_no_expunge b s :
+  all_s (fun c => c_pend c = []) b s -> forall c, In (s, c) (b_clients b) -> existsb is_expunge (c_pend c) = false.
+Proof. intros H c Hin. rewrite (H c Hin). reflexivity. Qed.
+
+Theorem store_seq_no_expunge w s st act silent flags :
+  winv w -> clean_for s (snd (step w (OStore s false st act silent flags))).
+Proof.
+  intros Hw. unfold step. unfold in_mbox. destruct (sel w s) as [n|]; [|apply clean_one; reflexivity].
+  destruct (get_box w n) as [b|] eqn:Eb; [|apply clean_one; reflexivity].
   destruct (get_client b s) as [c|]; [|apply clean_one; reflexivity].
   destruct (c_exam c); [apply clean_one; reflexivity|].
   destruct (gate b s false true) as [[b0 o0]|] eqn:G; [|apply clean_one; reflexivity].
-  pose proof (gate_seq_clean _ _ _ _ _ G) as C0.
-  destruct (admit_set w n b0 false st) as [[[b1 o1] sl]|] eqn:A;
+  pose proof (gate_seq_clean _ _ _ _ _ G) as C0. apply gate_true in G.
+  assert (Hb : boxinv b) by apply (Hw _ _ Eb).
+  destruct (admit_set w n b0 false st) as [[[b1a o1a] sl]|] eqn:A;
     [|cbn [snd]; apply clean_app; [exact C0|apply clean_one; reflexivity]].
-  pose proof (admit_set_out _ _ _ _ _ _ _ _ s A) as C1.
+  pose proof (admit_set_out _ _ _ _ _ _ _ _ s A) as C1. apply admit_set_ok in A.
+  destruct (flush b1a s) as [b1 o1b] eqn:Ef1.
+  assert (C1b : clean_for s o1b).
+  { replace o1b with (snd (flush b1a s)) by (rewrite Ef1; reflexivity). subst b1a b0.
+    apply postflush_clean. apply clean_queue_no_expunge. apply flush_all_clean. apply Hb. }
   destruct (smem "\Recent" flags || existsb reserved_kw flags).
   { cbn [snd]. repeat apply clean_app; trivial. apply clean_one; reflexivity. }
   match goal with |- context [dispatch ?B ?D ?R] => destruct (dispatch B D R) as [b3 o2] eqn:Ed end.
@@ -134,13 +192,19 @@ Proof.
   - apply clean_one; reflexivity.
 Qed.
 
-Theorem search_seq_no_expunge w s flag : clean_for s (snd (step w (OSearch s false flag))).
+Theorem search_seq_no_expunge w s flag : winv w -> clean_for s (snd (step w (OSearch s false flag))).
 Proof.
-  unfold step. apply in_mbox_clean. intros n b.
-  destruct (gate b s false false) as [[b0 o0]|] eqn:G; [|apply clean_one; reflexivity].
-  pose proof (gate_seq_clean _ _ _ _ _ G) as C0. rewrite admit_is_resync.
-  destruct (resync b0) as [b1 o1] eqn:E. cbn [snd]. repeat apply clean_app; trivial.
-  - replace o1 with (snd (resync b0)) by (rewrite E; reflexivity). apply resync_out.
+  intros Hw. unfold step. unfold in_mbox. destruct (sel w s) as [n|]; [|apply clean_one; reflexivity].
+  destruct (get_box w n) as [b|] eqn:Eb; [|apply clean_one; reflexivity].
+  destruct (gate b s false true) as [[b0 o0]|] eqn:G; [|apply clean_one; reflexivity].
+  pose proof (gate_seq_clean _ _ _ _ _ G) as C0. apply gate_true in G. rewrite admit_is_resync.
+  assert (Hb : boxinv b) by apply (Hw _ _ Eb).
+  destruct (resync b0) as [b1a o1a] eqn:E. destruct (flush b1a s) as [b1 o1b] eqn:Ef. cbn [snd].
+  repeat apply clean_app; trivial.
+  - replace o1a with (snd (resync b0)) by (rewrite E; reflexivity). apply resync_out.
+  - replace o1b with (snd (flush b1a s)) by (rewrite Ef; reflexivity).
+    replace b1a with (fst (resync b0)) by (rewrite E; reflexivity). subst b0. apply postflush_clean.
+    apply clean_queue_no_expunge. apply flush_all_clean. apply Hb.
   - intros r [H|[H|[]]]; inversion H; subst; reflexivity.
 Qed.
 
@@ -151,15 +215,20 @@ Proof.
   destruct (get_client b s) as [c|]; [|apply clean_one; reflexivity].
   destruct (gate b s false true) as [[b0 o0]|] eqn:G; [|apply clean_one; reflexivity].
   pose proof (gate_seq_clean _ _ _ _ _ G) as C0. apply gate_true in G.
-  destruct (admit_set w n b0 false st) as [[[b1 o1] sl]|] eqn:A;
+  destruct (admit_set w n b0 false st) as [[[b1a o1a] sl]|] eqn:A;
     [|cbn [snd]; apply clean_app; [exact C0|apply clean_one; reflexivity]].
   pose proof (admit_set_out _ _ _ _ _ _ _ _ s A) as C1. apply admit_set_ok in A.
+  assert (Hb : boxinv b) by apply (Hw _ _ Eb).
+  destruct (flush b1a s) as [b1 o1b] eqn:Ef1.
+  assert (C1b : clean_for s o1b).
+  { replace o1b with (snd (flush b1a s)) by (rewrite Ef1; reflexivity). subst b1a b0.
+    apply postflush_clean. apply clean_queue_no_expunge. apply flush_all_clean. apply Hb. }
   match goal with |- context [dispatch ?B ?D ?R] => destruct (dispatch B D R) as [b3 o2] eqn:Ed end.
   destruct (flush b3 s) as [b4 o3] eqn:Ef. cbn [snd].
-  assert (Hb : boxinv b) by apply (Hw _ _ Eb).
   assert (N1 : all_s (fun c => forallb is_neutral (c_pend c) = true) b1 s).
-  { subst b1 b0. intros c0 Hin. apply (resync_neutral (fst (flush b s)) s); [|exact Hin].
-    apply flush_all_clean. apply Hb. }
+  { replace b1 with (fst (flush b1a s)) by (rewrite Ef1; reflexivity). intros c0 Hin.
+    assert (Hi : boxinv b1a) by (subst b1a b0; apply resync_inv; apply flush_inv; exact Hb).
+    rewrite (flush_all_clean b1a s (proj1 Hi) c0 Hin). reflexivity. }
   repeat apply clean_app; trivial.
   - apply clean_tag. intros r Hin. apply in_flat_map in Hin. destruct Hin as [p [_ Hin]].
     destruct (znth (b_msgs b1) (p - 1)); [|destruct Hin]. destruct k; destruct Hin as [<-|[]]; reflexivity.
